@@ -1,10 +1,28 @@
 """Batch driver for C03 / C12: prepare designs in worker processes, validate the traces with TLC
-(spec/SVSemTrace.tla), turn verdicts into violations."""
+(spec/SVSemTrace.tla), turn verdicts into violations with stable keys, canaries.
+
+  run_batch(res, backend, specs, ...) -> Batch     translate / simulate / validate a list of design specs
+  canaries(res, batch, R, ...)                     corrupted copies of accepted traces must be rejected
+  check_coverage(res, batches)                     per-action / per-clause coverage must be non-vacuous
+
+Violation keys (matched by known_findings.jsonl):
+  syntax:<backend>:<design>:<message>              the emitted text is not well-formed
+  drivers:<backend>:<design>:<variable>            a variable with more than one driver
+  loop-wraps:<backend>:<design>                    a for loop whose 32-bit variable wraps around (never ends)
+  signed-loopvar:<backend>:<design>                differs only under the signedness rules (see c12.py)
+  behaviour:<backend>:<design>:<what>              outputs differ from the PyMTL simulation
+<design> is the repo case / stdlib component name, or for generated designs `gen:<family>:<shape>` where the
+shape is the operator / operand-shape tree of the expression driving the failing output (expression
+families) or the name of the fixed structure with its parameters (structural families).
+"""
 import concurrent.futures as cf
 import copy
+import json
 import multiprocessing as mp
 import os
 import re
+import shutil
+import tempfile
 
 import common
 import svcorpus
@@ -20,9 +38,9 @@ def _prep(args):
         return {"spec": args[0][:2], "backend": args[1], "status": "machinery", "info": str(e), "traces": []}
 
 
-def prepare_all(specs, backend, nrand, ncyc, seed_tag, workers=None):
+def prepare_all(specs, backend, nrand, ncyc, seed_tag, cross=False, workers=None):
     workers = workers or min(os.cpu_count() or 4, 16)
-    args = [(s, backend, nrand, ncyc, seed_tag) for s in specs]
+    args = [(s, backend, nrand, ncyc, seed_tag, False, None, cross) for s in specs]
     if len(specs) <= 2:
         return [_prep(a) for a in args]
     ctx = mp.get_context("fork")
@@ -31,18 +49,19 @@ def prepare_all(specs, backend, nrand, ncyc, seed_tag, workers=None):
 
 
 def _weight(t):
-    return 1 + len(t["ev"]) * max(1, t.get("w", 1))
+    return 40 + len(t["ev"]) * max(1, t.get("w", 1))
 
 
 def validate(traces, timeout=3000):
-    """tlc.validate_traces with chunks balanced by design size x cycles."""
+    """Validate `traces` with SVSemTrace in parallel single-worker TLC processes; chunks balanced by
+    design size x cycles.  Returns (runs, [((err, pos), info)])."""
     if not traces:
         return [], []
     ncpu = min(os.cpu_count() or 4, 16)
     order = sorted(range(len(traces)), key=lambda i: -_weight(traces[i]))
     total = sum(_weight(t) for t in traces)
     # one JVM costs ~3 CPU-seconds before the first trace; ~4k weight units (AST nodes x cycles) are interpreted per second
-    nchunks = max(1, min(len(traces), ncpu, total // 40000 + 1))
+    nchunks = max(1, min(len(traces), ncpu, total // 25000 + 1))
     bins = [[] for _ in range(nchunks)]
     load = [0] * nchunks
     for i in order:
@@ -52,36 +71,48 @@ def validate(traces, timeout=3000):
     verdicts = [None] * len(traces)
     infos = [None] * len(traces)
     runs = []
+    tmp = tempfile.mkdtemp(prefix="svsem_")
 
     def one(b):
         idx = bins[b]
         if not idx:
             return None
-        rs, vs = tlc.validate_traces("SVSemTrace", {"traces": [traces[i] for i in idx]}, chunk=len(idx),
-                                     parallel=1, timeout=timeout,
-                                     env={"JAVA_TOOL_OPTIONS": "-XX:ParallelGCThreads=2 -XX:CICompilerCount=2"})
-        r = rs[0]
-        extra = {}
+        fn = os.path.join(tmp, "in_%d.json" % b)
+        with open(fn, "w") as f:
+            json.dump({"traces": [{"d": traces[i]["d"], "mode": traces[i]["mode"], "ev": traces[i]["ev"]} for i in idx]}, f)
+        r = tlc.run("SVSemTrace", env={"VERIF_INPUT": fn}, workers=1, timeout=timeout, deadlock=False, light=True,
+                    coverage=True)
+        os.unlink(fn)
+        if r.errors or r.violated:
+            raise MachineryError("trace spec SVSemTrace failed: %s %s\n%s" % (r.errors, r.violated, r.out[-3000:]))
+        vs, extra = {}, {}
         for p in r.prints:
-            if p and p[0] in ("T", "R"):
+            if not p:
+                continue
+            if p[0] == "V":
+                if p[1] - 1 in vs:
+                    raise MachineryError("two verdicts for one trace")
+                vs[p[1] - 1] = (p[2], p[3])
+            elif p[0] in ("T", "R"):
                 extra.setdefault(p[1] - 1, {})[p[0]] = p[2:]
+        for j in range(len(idx)):
+            if j not in vs:
+                raise MachineryError("no verdict for trace %s\n%s" % (traces[idx[j]].get("tag"), r.out[-3000:]))
         return idx, r, vs, extra
 
-    with cf.ThreadPoolExecutor(max_workers=ncpu) as ex:
-        for res in ex.map(one, range(nchunks)):
-            if res is None:
-                continue
-            idx, r, vs, extra = res
-            runs.append(r)
-            for j, i in enumerate(idx):
-                verdicts[i] = vs[j]
-                infos[i] = extra.get(j, {})
+    try:
+        with cf.ThreadPoolExecutor(max_workers=ncpu) as ex:
+            for res in ex.map(one, range(nchunks)):
+                if res is None:
+                    continue
+                idx, r, vs, extra = res
+                runs.append(r)
+                for j, i in enumerate(idx):
+                    verdicts[i] = vs[j]
+                    infos[i] = extra.get(j, {})
+    finally:
+        shutil.rmtree(tmp, ignore_errors=True)
     return runs, list(zip(verdicts, infos))
-
-
-def _strip(t):
-    """what goes to TLC"""
-    return {"d": t["d"], "mode": t["mode"], "ev": t["ev"]}
 
 
 def has_signed(flat):
@@ -89,87 +120,152 @@ def has_signed(flat):
 
 
 def _norm(msg):
-    return re.sub(r"line \d+: ", "", msg)
+    msg = re.sub(r"line \d+: ", "", msg)
+    return re.sub(r"\s+", " ", msg)
 
 
 class Batch:
     """Results of one corpus run."""
 
-    def __init__(self):
+    def __init__(self, backend, label):
+        self.backend, self.label = backend, label
         self.preps = []
-        self.results = []     # (prep, trace, err, pos, info)
+        self.traces = []      # trace dicts (with "owner": index into preps)
+        self.vi = []          # ((err, pos), info) per trace
+        self.lenient = {}     # trace index -> verdict with signedness ignored
+        self.coverage = {}    # TLC action -> count
+        self.ncmp = 0         # leaf comparisons made by TLC
+        self.nflat = 0        # ... of which through a multi-leaf FlatMap layout
+        self.clauses = {}     # err clause -> count (incl. "ok")
 
 
-def run_batch(res, pid, backend, specs, nrand, ncyc, seed_tag, label, keyfn=None):
-    """Translate, simulate and validate `specs`.  Adds evidence and violations to `res`.
-    Returns the list of (prep, [(trace, err, pos, info)])."""
-    preps = prepare_all(specs, backend, nrand, ncyc, seed_tag)
-    unsupported = [p for p in preps if p["status"] in ("unsupported", "machinery", "unresolvable") or
-                   (p["status"] == "unbuildable" and p["spec"][0] != "repo")]
-    if unsupported:
-        raise MachineryError("%s: %d design(s) could not be processed by the harness, first: %s %s"
-                             % (label, len(unsupported), unsupported[0]["spec"], unsupported[0]["info"]))
-    traces, owner = [], []
+def design_key(p):
+    if p["spec"][0] == "gen":
+        m = p.get("meta") or {}
+        return "gen:%s" % m.get("family", "?"), m
+    return p.get("name", p["spec"][1]), None
+
+
+def _gen_shape(meta, where):
+    """shape of the failing output of a generated design"""
+    port = re.sub(r"\[\d+\]", "", where).split(".")[0].split("__")[0]
+    sig = (meta.get("sigs") or {}).get(port)
+    wm = re.search(r"_w(\d+)", meta.get("shape", ""))
+    if sig:
+        return "%s:w%s" % (sig, wm.group(1) if wm else "?")
+    return "%s:%s" % (meta.get("shape", "?"), port)
+
+
+def run_batch(res, backend, specs, nrand, ncyc, seed_tag, label, cross=False):
+    """Translate, simulate and validate `specs`.  Adds evidence and violations to `res`."""
+    B = Batch(backend, label)
+    preps = B.preps = prepare_all(specs, backend, nrand, ncyc, seed_tag, cross=cross)
+    bad = [p for p in preps if p["status"] in ("unsupported", "machinery", "unresolvable") or
+           (p["status"] == "unbuildable" and p["spec"][0] != "repo")]
+    if bad:
+        raise MachineryError("%s: %d design(s) could not be processed by the harness (never skipped), first: %s %s: %s"
+                             % (label, len(bad), bad[0]["spec"][:2], bad[0]["status"], bad[0]["info"]))
     for pi, p in enumerate(preps):
         res.count("%s_status_%s" % (label, p["status"]))
+        dk, meta = design_key(p)
         if p["status"] == "syntax":
-            res.violation("syntax:%s:%s:%s" % (backend, _norm(p["info"])[:120], p["name"]),
-                          "%s back end: emitted text for %s is not valid: %s" % (backend, p["name"], p["info"]),
-                          {"spec": list(p["spec"]), "text": p.get("text", "")[-4000:]})
-        if p["status"] == "untranslatable" and not p.get("expected_reject", True):
-            res.count("%s_unexpected_translation_exception" % label)
-            res.sample({"unexpected translation exception": p["info"], "design": p["name"]})
+            res.violation("syntax:%s:%s:%s" % (backend, dk if meta is None else "%s:%s" % (dk, meta.get("shape")), _norm(p["info"])[:100]),
+                          "%s back end: the text emitted for %s is not valid: %s" % (backend, p.get("name"), p["info"]),
+                          {"spec": list(p["spec"][:2]), "text": p.get("text", "")[-3000:]})
+            res.count("programs")
+        if p["status"] == "untranslatable":
+            res.count("designs_rejected_by_the_translation_pass")
+            if not p.get("expected_reject", True):
+                res.count("%s_unexpected_translation_exception" % label)
+                res.sample({"unexpected translation exception": p["info"], "design": p.get("name")})
+        if p.get("nosim"):
+            if p["spec"][0] == "gen":
+                raise MachineryError("%s: generated design %s cannot be simulated by PyMTL (%s) - generator bug"
+                                     % (label, p.get("name"), p["nosim"]))
+            res.count("%s_designs_pymtl_cannot_simulate" % label)
+        if p.get("tv_unsupported"):
+            res.count("%s_hand_vector_sets_not_expressible" % label)
+            res.note("%s_hand_vectors_not_expressible:%s" % (label, p.get("name")), p["tv_unsupported"])
+        if p.get("tv_pymtl"):
+            res.count("%s_hand_vectors_satisfied_by_pymtl_sim" % label, p["tv_pymtl"]["ok"])
+            res.count("%s_hand_vectors_contradicted_by_pymtl_sim" % label, p["tv_pymtl"]["fail"])
+        res.count("%s_stimulus_runs_cut_short_by_a_pymtl_exception" % label, p.get("aborted", 0))
         for t in p["traces"]:
             t["w"] = p.get("nodes", 1)
-            traces.append(t)
-            owner.append(pi)
-    runs, vi = validate([dict(_strip(t), w=t["w"]) for t in traces])
+            t["owner"] = pi
+            B.traces.append(t)
+    traces = B.traces
+    runs, vi = validate(traces)
+    B.vi = vi
     for r in runs:
         res.add_tlc(r)
-    out = [(p, []) for p in preps]
+        for a, (_d, n) in r.coverage.items():
+            B.coverage[a] = B.coverage.get(a, 0) + n
     # second opinion for designs with signed (integer) variables: signedness ignored
     retry = [i for i, (t, (v, info)) in enumerate(zip(traces, vi))
              if t["mode"] == "run" and v[0] != "ok" and has_signed(t["d"])]
-    lenient = {}
     if retry:
         rt = []
         for i in retry:
-            t = _strip(traces[i])
+            t = dict(traces[i])
             t["d"] = dict(t["d"], uns=True)
-            t["w"] = traces[i]["w"]
             rt.append(t)
         runs2, vi2 = validate(rt)
         for r in runs2:
             res.add_tlc(r)
         for i, (v, info) in zip(retry, vi2):
-            lenient[i] = v
+            B.lenient[i] = (v, info)
     nprog, nsteps, ndis = 0, 0, 0
+    failed_design = set()
+    vec_fail = []
     for i, (t, (v, info)) in enumerate(zip(traces, vi)):
-        p = preps[owner[i]]
+        p = preps[t["owner"]]
         err, pos = v
-        out[owner[i]][1].append((t, err, pos, info))
         name = p["name"]
+        dk, meta = design_key(p)
+        full = dk if meta is None else "%s:%s" % (dk, meta.get("shape"))
         if t["mode"] == "drv":
             nprog += 1
             r = info.get("R", (0, 0, 0))
             res.count("%s_undriven_variables" % label, r[2] if len(r) > 2 else 0)
+            B.clauses["OneDriver:" + err] = B.clauses.get("OneDriver:" + err, 0) + 1
             if err == "multi-driver":
                 k = info.get("T", (0,))[0]
                 var = t["d"]["varorder"][k - 1] if k else "?"
-                res.violation("drivers:%s:%s:%s" % (backend, name, var),
+                failed_design.add(t["owner"])
+                res.violation("drivers:%s:%s:%s" % (backend, full, re.sub(r"\d+", "N", var) if meta else var),
                               "%s back end, design %s: variable %s has more than one driver (%d such variable(s))"
                               % (backend, name, var, r[1] if len(r) > 1 else 1),
                               {"spec": list(p["spec"])[:2]})
             elif err != "ok":
                 raise MachineryError("%s: drivers check of %s ended with %s" % (label, name, err))
             continue
+        tinfo = info.get("T", (0, 0, 0))
+        B.ncmp += tinfo[1] if len(tinfo) > 1 else 0
+        B.nflat += tinfo[2] if len(tinfo) > 2 else 0
         res.add_traces(1)
-        nsteps += len(t["ev"])
-        ndis += sum(len(e["outc"]) + len(e["outt"]) for e in t["ev"][:max(0, pos - 1) if err != "ok" else None])
+        nsteps += (len(t["ev"]) if err == "ok" else max(0, pos - 1))
         res.distinct((backend, t["tag"]))
+        is_vec = t.get("kind") == "vectors"
+        is_cross = t.get("kind") == "cross"
+        if is_vec:
+            res.count("%s_hand_vector_sets_run" % label)
+            res.count("%s_hand_vectors_run" % label, p["tv"]["vectors"])
         if err == "ok":
+            B.clauses["ok"] = B.clauses.get("ok", 0) + 1
+            if is_vec:
+                res.count("%s_hand_vector_sets_reproduced" % label)
+                res.count("%s_hand_vectors_reproduced" % label, p["tv"]["vectors"])
+                res.count("%s_hand_vector_expectations_reproduced" % label, p["tv"]["expectations"])
+            if is_cross:
+                res.count("%s_cross_sv_text_accepts_same_vectors" % label)
             continue
-        k = info.get("T", (0,))[0]
+        lv = B.lenient.get(i)
+        eff = err
+        if lv is not None and lv[0][0] == "ok":
+            eff = "signed-loopvar"
+        B.clauses[eff] = B.clauses.get(eff, 0) + 1
+        k = tinfo[0]
         where = ""
         if err.startswith("mismatch") and k:
             e = t["ev"][pos - 1]["outc" if err == "mismatch-comb" else "outt"][k - 1]
@@ -177,74 +273,146 @@ def run_batch(res, pid, backend, specs, nrand, ncyc, seed_tag, label, keyfn=None
         elif err.startswith("port-map") and k:
             e = t["ev"][pos - 1]["in" if "input" in err else "outc"][k - 1]
             where = e["n"]
-        if i in lenient and lenient[i][0] == "ok":
-            res.violation("signed-loopvar:%s:%s" % (backend, name),
-                          "%s back end, design %s: the emitted text differs from the PyMTL simulation (%s at cycle %d "
-                          "%s) under IEEE 1800 signedness rules - a size cast N'(integer loop variable) is signed "
-                          "(6.24.1), so an index / operand with its top bit set is negative; it agrees when every "
-                          "operand is taken as unsigned" % (backend, name, err, pos, where),
-                          {"spec": list(p["spec"])[:2], "trace": t["tag"]})
+        if is_cross:
+            # the SystemVerilog text on the vectors of the yosys check: C03's business, recorded only
+            res.count("%s_cross_sv_text_rejects_same_vectors" % label)
+            res.note("%s_cross_sv_disagreement:%s" % (label, full), "%s at cycle %d %s" % (err, pos, where))
             continue
-        key = "behaviour:%s:%s:%s:%s" % (backend, name, err, where)
-        if keyfn:
-            key = keyfn(p, t, err, where) or key
-        res.violation(key,
-                      "%s back end, design %s (%s): %s at cycle %d %s"
-                      % (backend, name, t["tag"], err, pos, where),
-                      {"spec": list(p["spec"])[:2], "event": t["ev"][pos - 1] if 0 < pos <= len(t["ev"]) else None})
+        if is_vec:
+            vec_fail.append((t["owner"], name, err, pos, where))
+            continue
+        failed_design.add(t["owner"])
+        detail = {"spec": list(p["spec"])[:2], "trace": t["tag"], "clause": err, "cycle": pos, "port": where,
+                  "event": t["ev"][pos - 1] if 0 < pos <= len(t["ev"]) else None}
+        if p["spec"][0] == "gen":
+            detail["source"] = p.get("src")
+        if eff == "signed-loopvar":
+            res.violation("signed-loopvar:%s:%s" % (backend, full),
+                          "%s back end, design %s: the emitted text differs from the PyMTL simulation (%s at cycle %d "
+                          "%s) under the IEEE 1800 signedness rules - a size cast N'(integer loop variable) is signed "
+                          "(6.24.1), so an index with its top bit set is negative; it agrees when every operand is "
+                          "taken as unsigned" % (backend, name, err, pos, where), detail)
+            continue
+        if err.endswith("loop-wraps"):
+            res.violation("loop-wraps:%s:%s" % (backend, full),
+                          "%s back end, design %s: a for loop of the emitted text does not terminate - its 32-bit "
+                          "unsigned loop variable passes zero and the loop condition still holds (%s at cycle %d)"
+                          % (backend, name, err, pos), detail)
+            continue
+        cls = "mismatch" if err.startswith("mismatch") else err
+        if meta is not None:
+            what = _gen_shape(meta, where) + ("" if cls == "mismatch" else ":" + cls)
+            key = "behaviour:%s:%s:%s" % (backend, dk, what)
+        else:
+            key = "behaviour:%s:%s:%s:%s" % (backend, dk, cls, where)
+        res.violation(key, "%s back end, design %s (%s): %s at cycle %d %s"
+                      % (backend, name, t["tag"], err, pos, where), detail)
+    for (owner, name, err, pos, where) in vec_fail:
+        if owner in failed_design:
+            res.count("%s_hand_vector_sets_failing_like_the_pymtl_trace" % label)
+        else:
+            raise MachineryError("%s: the interpreter does not reproduce the maintainers' vectors of %s (%s at vector %d %s) "
+                                 "although the PyMTL trace of the same design is accepted" % (label, name, err, pos - 3, where))
     res.count("programs", nprog)
-    res.count("disagreements_checked", ndis)
+    res.count("disagreements_checked", B.ncmp)
     res.count("cycles_validated", nsteps)
     res.add_evals(nsteps)
-    return out, traces, vi
+    return B
 
 
-def canaries(res, traces, vi, R, n=12):
-    """Corrupt recorded PyMTL outputs / emitted operators of accepted traces; all must be rejected."""
-    good = [t for t, (v, info) in zip(traces, vi)
-            if t["mode"] == "run" and v[0] == "ok" and any(e["outc"] for e in t["ev"])]
-    if not good:
-        raise MachineryError("no accepted trace with outputs to derive canaries from")
-    R.shuffle(good)
-    can = []
-    kinds = []
-    for t in good:
-        if len(can) >= n:
-            break
-        c = copy.deepcopy(_strip(t))
-        c["w"] = t.get("w", 1)
-        kind = len(can) % 3
-        if kind in (0, 1):
-            # one recorded output bit flipped
-            evs = [i for i, e in enumerate(c["ev"]) if e["outc"]]
-            e = c["ev"][R.choice(evs)]
-            lst = e["outc"] if kind == 0 else e["outt"]
-            ent = R.choice(lst)
-            b = R.randrange(len(ent["v"]))
-            ent["v"][b] ^= 1
-            can.append(c)
-            kinds.append("output-bit")
-        else:
-            # one operator of the parsed text replaced (only if an output actually depends on it:
-            # decided by running it - accepted mutants of this kind are not counted)
-            if _mutate_op(c["d"], R):
-                can.append(c)
-                kinds.append("operator")
-    if not can:
-        raise MachineryError("no canary could be built")
-    runs, cv = validate(can)
-    rejected = 0
-    for kd, (v, info) in zip(kinds, cv):
-        if v[0] == "ok":
-            if kd == "output-bit":
-                raise MachineryError("canary (recorded output bit flipped) accepted by SVSemTrace")
-        else:
-            rejected += 1
-    if not any(kd == "output-bit" for kd in kinds):
-        raise MachineryError("no output canary")
-    res.count("canaries_rejected", rejected)
-    res.count("canaries_operator_equivalent", len(can) - rejected)
-    return rejected
+# --------------------------------------------------------------------------------------
+# canaries
+# --------------------------------------------------------------------------------------
+
+def _spans(shape, lo=0, path=()):
+    """(path, lo, width) of the direct children of a struct / list shape (first field / highest index
+    most significant) - used only to BUILD port-map canaries, never to judge a trace."""
+    if shape["k"] == "struct":
+        kids = [(f["n"], f["t"]) for f in shape["fs"]]
+    elif shape["k"] == "list":
+        kids = [(str(i), shape["t"]) for i in range(shape["n"])][::-1]
+    else:
+        return []
+    out = []
+    off = lo + _nbits(shape)
+    for n, t in kids:
+        off -= _nbits(t)
+        out.append((n, off, _nbits(t)))
+    return out
+
+
+def _nbits(shape):
+    if shape["k"] == "leaf":
+        return shape["w"]
+    if shape["k"] == "struct":
+        return sum(_nbits(f["t"]) for f in shape["fs"])
+    return shape["n"] * _nbits(shape["t"])
+
+
+def _strip(t):
+    return {"d": t["d"], "mode": t["mode"], "ev": t["ev"], "w": t.get("w", 1)}
+
+
+def _portmap_canary(t, R):
+    """A copy of trace t with the port map corrupted observably: two sibling struct fields of equal width
+    swapped in the type of an output port, or two elements of a list (field or port array) exchanged.
+    None if t has no such port."""
+    cands = []
+    for ei, e in enumerate(t["ev"]):
+        for lst in ("outc", "outt"):
+            for pi, ent in enumerate(e[lst]):
+                ty = ent["ty"]
+                if ty["k"] == "leaf":
+                    continue
+                sp = _spans(ty)
+                for a in range(len(sp)):
+                    for b in range(a + 1, len(sp)):
+                        if sp[a][2] != sp[b][2]:
+                            continue
+                        va = ent["v"][sp[a][1]:sp[a][1] + sp[a][2]]
+                        vb = ent["v"][sp[b][1]:sp[b][1] + sp[b][2]]
+                        if va != vb:
+                            cands.append((ei, lst, pi, a, b, ty["k"]))
+    if not cands:
+        return None, None
+    ei, lst, pi, a, b, kind = R.choice(cands)
+    c = copy.deepcopy(_strip(t))
+    ent = c["ev"][ei][lst][pi]
+    sp = _spans(ent["ty"])
+    if kind == "struct" and ent["ty"]["fs"][a]["t"] == ent["ty"]["fs"][b]["t"]:
+        fs = ent["ty"]["fs"]
+        fs[a], fs[b] = fs[b], fs[a]              # swapped struct fields in the port map
+        return c, "swapped-struct-fields"
+    v = ent["v"]
+    va = v[sp[a][1]:sp[a][1] + sp[a][2]]
+    vb = v[sp[b][1]:sp[b][1] + sp[b][2]]
+    v[sp[a][1]:sp[a][1] + sp[a][2]] = vb         # same effect as exchanging the two positions in the map
+    v[sp[b][1]:sp[b][1] + sp[b][2]] = va
+    return c, "reversed-array-index" if kind == "list" else "swapped-struct-fields"
+
+
+def _array_canary(t, R):
+    """Two elements p__i / p__j of a flattened port array (yosys) exchange their recorded values."""
+    cands = []
+    for ei, e in enumerate(t["ev"]):
+        for lst in ("outc", "outt"):
+            byname = {}
+            for pi, ent in enumerate(e[lst]):
+                m = re.match(r"(.*)__(\d+)$", ent["n"])
+                if m:
+                    byname.setdefault(m.group(1), []).append(pi)
+            for base, pis in byname.items():
+                for x in range(len(pis)):
+                    for y in range(x + 1, len(pis)):
+                        if e[lst][pis[x]]["v"] != e[lst][pis[y]]["v"] and e[lst][pis[x]]["ty"] == e[lst][pis[y]]["ty"]:
+                            cands.append((ei, lst, pis[x], pis[y]))
+    if not cands:
+        return None
+    ei, lst, x, y = R.choice(cands)
+    c = copy.deepcopy(_strip(t))
+    L = c["ev"][ei][lst]
+    L[x]["v"], L[y]["v"] = L[y]["v"], L[x]["v"]
+    return c
 
 
 _SWAP = {"+": "-", "-": "+", "&": "|", "|": "&", "^": "&", "<<": ">>", ">>": "<<", "==": "!=", "!=": "==",
@@ -270,3 +438,100 @@ def _mutate_op(d, R):
     s = R.choice(sites)
     s["op"] = _SWAP[s["op"]]
     return True
+
+
+def canaries(res, batches, R, n=12, portmap=False):
+    """Corrupt recorded PyMTL outputs / emitted operators / (C12) the port map of accepted traces.
+    Every output-bit and port-map canary must be rejected; operator canaries are rejected when the
+    operator is observable on the recorded vectors (at least one must be)."""
+    good = []
+    for B in batches:
+        for t, (v, info) in zip(B.traces, B.vi):
+            if t["mode"] == "run" and v[0] == "ok" and t.get("kind") != "cross" and any(e["outc"] for e in t["ev"]):
+                good.append(t)
+    if not good:
+        raise MachineryError("no accepted trace with outputs to derive canaries from")
+    good.sort(key=lambda t: t["tag"])
+    R.shuffle(good)
+    can, kinds = [], []
+    for t in good:
+        if len(can) >= n:
+            break
+        if t.get("w", 1) * len(t["ev"]) > 40000:
+            continue                        # keep the canary run cheap
+        kind = len(can) % 3
+        c = copy.deepcopy(_strip(t))
+        if kind in (0, 1):
+            evs = [i for i, e in enumerate(c["ev"]) if e["outc" if kind == 0 else "outt"]]
+            if not evs:
+                continue
+            e = c["ev"][R.choice(evs)]
+            ent = R.choice(e["outc"] if kind == 0 else e["outt"])
+            b = R.randrange(len(ent["v"]))
+            ent["v"][b] ^= 1
+            can.append(c)
+            kinds.append("output-bit")
+        elif _mutate_op(c["d"], R):
+            can.append(c)
+            kinds.append("operator")
+    if portmap:
+        npm = {"swapped-struct-fields": 0, "reversed-array-index": 0, "exchanged-port-array-elements": 0}
+        for t in good:
+            if t.get("w", 1) * len(t["ev"]) > 40000:
+                continue
+            if npm["swapped-struct-fields"] < 3 or npm["reversed-array-index"] < 3:
+                c, kd = _portmap_canary(t, R)
+                if c is not None and npm[kd] < 3:
+                    can.append(c)
+                    kinds.append(kd)
+                    npm[kd] += 1
+            if npm["exchanged-port-array-elements"] < 3:
+                c = _array_canary(t, R)
+                if c is not None:
+                    can.append(c)
+                    kinds.append("exchanged-port-array-elements")
+                    npm["exchanged-port-array-elements"] += 1
+        for kd, cnt in npm.items():
+            if cnt == 0:
+                raise MachineryError("no %s canary could be built (no accepted trace with such a port)" % kd)
+    if not can:
+        raise MachineryError("no canary could be built")
+    runs, cv = validate(can)
+    rejected = {}
+    for kd, (v, info) in zip(kinds, cv):
+        if v[0] == "ok":
+            if kd != "operator":
+                raise MachineryError("canary (%s) accepted by SVSemTrace" % kd)
+            res.count("canaries_operator_not_observable")
+        else:
+            rejected[kd] = rejected.get(kd, 0) + 1
+            res.count("canaries_rejected")
+            res.count("canaries_rejected_%s" % kd)
+    if not rejected.get("output-bit"):
+        raise MachineryError("no output canary")
+    if not rejected.get("operator"):
+        raise MachineryError("no operator canary was rejected (operator mutations never observable?)")
+    return rejected
+
+
+def check_coverage(res, batches, need_flat=False):
+    cov, clauses, ncmp, nflat = {}, {}, 0, 0
+    for B in batches:
+        for a, n in B.coverage.items():
+            cov[a] = cov.get(a, 0) + n
+        for c, n in B.clauses.items():
+            clauses[c] = clauses.get(c, 0) + n
+        ncmp += B.ncmp
+        nflat += B.nflat
+    res.note("tlc_action_coverage", cov)
+    res.note("clause_counts", clauses)
+    res.note("leaf_comparisons_through_flatmap_layout", nflat)
+    for a in ("Start", "Step", "Finish"):
+        if cov.get(a, 0) == 0:
+            raise MachineryError("action %s of SVSemTrace never taken (vacuous)" % a)
+    if clauses.get("ok", 0) == 0 or clauses.get("OneDriver:ok", 0) == 0:
+        raise MachineryError("no trace was accepted / no OneDriver verdict (vacuous)")
+    if ncmp == 0:
+        raise MachineryError("no output comparison was made (vacuous)")
+    if need_flat and nflat == 0:
+        raise MachineryError("no comparison went through a multi-leaf FlatMap layout (clause FlatMap vacuous)")
